@@ -389,7 +389,7 @@ pub fn driver() -> bool {
                     .map(|x| x.parse().unwrap())
                     .collect();
                 match std::panic::catch_unwind(|| utils::get_mean(&v)) {
-                    Ok(m) => writeln!(out, "{{\"mean\":\"{:.6}\"}}", m),
+                    Ok(m) => writeln!(out, "{{\"mean\":\"{:.6}\",\"bits\":\"{:?}\"}}", m, m),
                     Err(e) => writeln!(out, "{{\"panic\":{}}}", js(&panic_msg(e))),
                 }
                 .unwrap();
